@@ -218,3 +218,578 @@ theorem dumpsMRest_noBreak (ea : Bool) : ∀ ms : JMembers, NoBreak (dumpsMRest 
 end
 
 end Json
+
+/-! ### the parser inverts the printer -/
+namespace Json
+open Py Py.JsonStr
+
+/-- what may follow a value in a JSON text: not a number character -/
+def endsNum : Str → Bool
+  | [] => true
+  | c :: _ => !isNumChar c
+
+theorem takeWhile_append_of_all {p : Char → Bool} {a rest : Str} (ha : a.all p = true)
+    (hr : ∀ c t, rest = c :: t → p c = false) :
+    (a ++ rest).takeWhile p = a ∧ (a ++ rest).dropWhile p = rest := by
+  induction a with
+  | nil =>
+    cases rest with
+    | nil => simp
+    | cons c t => simp [hr c t rfl]
+  | cons x xs ih =>
+    simp only [List.all_cons, Bool.and_eq_true] at ha
+    simp [ha.1, ih ha.2]
+
+theorem endsNum_spec {rest : Str} (h : endsNum rest = true) : ∀ c t, rest = c :: t → isNumChar c = false := by
+  intro c t e; subst e; simpa [endsNum] using h
+
+theorem parseAtom_null (rest : Str) : parseAtom ("null".toList ++ rest) = some (.null, rest) := by
+  show parseAtom ('n' :: 'u' :: 'l' :: 'l' :: rest) = _
+  simp [parseAtom, List.takeWhile, isNumChar, dropPrefix?]
+
+theorem parseAtom_true (rest : Str) : parseAtom ("true".toList ++ rest) = some (.bool true, rest) := by
+  show parseAtom ('t' :: 'r' :: 'u' :: 'e' :: rest) = _
+  simp [parseAtom, List.takeWhile, isNumChar, dropPrefix?]
+
+theorem parseAtom_false (rest : Str) : parseAtom ("false".toList ++ rest) = some (.bool false, rest) := by
+  show parseAtom ('f' :: 'a' :: 'l' :: 's' :: 'e' :: rest) = _
+  simp [parseAtom, List.takeWhile, isNumChar, dropPrefix?]
+
+theorem parseAtom_nan (rest : Str) : parseAtom (nanTok ++ rest) = some (.float floatNaN, rest) := by
+  simp [parseAtom, isNumChar, dropPrefix?, nanTok]
+
+theorem parseAtom_inf (rest : Str) : parseAtom (infTok ++ rest) = some (.float floatInf, rest) := by
+  simp [parseAtom, isNumChar, dropPrefix?, nanTok, infTok]
+
+theorem parseAtom_neginf (rest : Str) : parseAtom (negInfTok ++ rest) = some (.float floatNegInf, rest) := by
+  simp [parseAtom, isNumChar, dropPrefix?, nanTok, infTok, negInfTok]
+
+theorem digit_isNumChar {c : Char} (h : c.isDigit = true) : isNumChar c = true := by
+  simp [isNumChar, h]
+
+theorem digit_ne_minus {c : Char} (h : c.isDigit = true) : c ≠ '-' := by
+  intro e; subst e; revert h; decide
+
+theorem natStr_ne_nil (n : Nat) : natStr n ≠ [] := Nat.toDigits_ne_nil
+
+theorem natStr_allDigit (n : Nat) : (natStr n).all Char.isDigit = true :=
+  List.all_eq_true.2 (fun _ hx => Nat.isDigit_of_mem_toDigits (by decide) (by decide) hx)
+
+theorem natStr_allDigits (n : Nat) : allDigits (natStr n) = true := by
+  have h := natStr_ne_nil n
+  simp only [allDigits, Bool.and_eq_true, Bool.not_eq_true', natStr_allDigit, and_true]
+  cases hh : natStr n with
+  | nil => exact absurd hh h
+  | cons _ _ => rfl
+
+theorem allDigits_ne_nil {s : Str} (h : allDigits s = true) : s ≠ [] := by
+  intro e; subst e; revert h; decide
+
+theorem isIntShaped_of_allDigits {s : Str} (h : allDigits s = true) : isIntShaped s = true := by
+  cases s with
+  | nil => exact h
+  | cons c t =>
+    have hc : c.isDigit = true := by
+      simp only [allDigits, List.all_cons, Bool.and_eq_true] at h; exact h.2.1
+    have : c ≠ '-' := digit_ne_minus hc
+    unfold isIntShaped
+    split
+    · rename_i heq; injection heq with h1 _; exact absurd h1 this
+    · exact h
+
+theorem parseIntTok_of_digits {s : Str} (h : allDigits s = true) :
+    parseIntTok s = (Nat.ofDigitChars 10 s 0 : Int) := by
+  cases s with
+  | nil => rfl
+  | cons c t =>
+    have hc : c.isDigit = true := by
+      simp only [allDigits, List.all_cons, Bool.and_eq_true] at h; exact h.2.1
+    have : c ≠ '-' := digit_ne_minus hc
+    unfold parseIntTok
+    split
+    · rename_i heq; injection heq with h1 _; exact absurd h1 this
+    · rfl
+
+theorem fmtD_all_num (i : Int) : (fmtD i).all isNumChar = true := by
+  have hd : (natStr i.natAbs).all isNumChar = true :=
+    List.all_eq_true.2 (fun x hx => digit_isNumChar (List.all_eq_true.1 (natStr_allDigit _) x hx))
+  unfold fmtD; split
+  · simp only [List.all_cons, hd, Bool.and_true]; decide
+  · exact hd
+
+theorem fmtD_intShaped (i : Int) : isIntShaped (fmtD i) = true := by
+  unfold fmtD; split
+  · simp only [isIntShaped]; exact natStr_allDigits _
+  · exact isIntShaped_of_allDigits (natStr_allDigits _)
+
+theorem parseIntTok_fmtD (i : Int) : parseIntTok (fmtD i) = i := by
+  unfold fmtD; split
+  · rename_i h
+    simp only [parseIntTok, natStr, Nat.ofDigitChars_ten_toDigits]
+    omega
+  · rename_i h
+    rw [parseIntTok_of_digits (natStr_allDigits _)]
+    simp only [natStr, Nat.ofDigitChars_ten_toDigits]
+    omega
+
+theorem fmtD_not_trivial (i : Int) : ¬ (fmtD i = [] ∨ fmtD i = ['-']) := by
+  have h := natStr_ne_nil i.natAbs
+  unfold fmtD; split
+  · intro hh; rcases hh with hh | hh
+    · cases hh
+    · injection hh with _ h2; exact h h2
+  · intro hh; rcases hh with hh | hh
+    · exact h hh
+    · have := natStr_allDigit i.natAbs
+      rw [hh] at this; revert this; decide
+
+theorem parseAtom_int (i : Int) (rest : Str) (hr : endsNum rest = true) :
+    parseAtom (fmtD i ++ rest) = some (.int i, rest) := by
+  have ⟨h1, h2⟩ := takeWhile_append_of_all (fmtD_all_num i) (endsNum_spec hr)
+  unfold parseAtom
+  simp only [h1, h2, fmtD_not_trivial i, if_false, fmtD_intShaped, if_true, parseIntTok_fmtD]
+
+theorem float_cases (t : FloatTok) :
+    t.tok = nanTok ∨ t.tok = infTok ∨ t.tok = negInfTok ∨
+      (t.tok.all isNumChar = true ∧ isIntShaped t.tok = false ∧ numFloatOK t.tok = true) := by
+  have h := t.ok
+  unfold floatTokOK at h
+  simp only [Bool.or_eq_true, Bool.and_eq_true, decide_eq_true_eq, Bool.not_eq_true'] at h
+  rcases h with ((h | h) | h) | h
+  · exact Or.inl h
+  · exact Or.inr (Or.inl h)
+  · exact Or.inr (Or.inr (Or.inl h))
+  · exact Or.inr (Or.inr (Or.inr ⟨h.1.1, h.1.2, h.2⟩))
+
+theorem parseAtom_float (t : FloatTok) (rest : Str) (hr : endsNum rest = true) :
+    parseAtom (t.tok ++ rest) = some (.float t, rest) := by
+  rcases float_cases t with h | h | h | ⟨ha, hi, hn⟩
+  · obtain ⟨tok, ok⟩ := t; simp only at h; subst h; exact parseAtom_nan rest
+  · obtain ⟨tok, ok⟩ := t; simp only at h; subst h; exact parseAtom_inf rest
+  · obtain ⟨tok, ok⟩ := t; simp only at h; subst h; exact parseAtom_neginf rest
+  · have ⟨h1, h2⟩ := takeWhile_append_of_all ha (endsNum_spec hr)
+    have hnt : ¬ (t.tok = [] ∨ t.tok = ['-']) := by
+      intro hh; rcases hh with hh | hh <;> (rw [hh] at hn; revert hn; decide)
+    unfold parseAtom
+    simp only [h1, h2, hnt, if_false, hi, Bool.false_eq_true, t.ok, dite_true]
+
+
+mutual
+def need : JVal → Nat
+  | .arr xs => needL xs + 1
+  | .obj ms => needM ms + 1
+  | _ => 1
+def needL : JList → Nat
+  | .nil => 1
+  | .cons v t => max (need v) (needL t) + 1
+def needM : JMembers → Nat
+  | .nil => 1
+  | .cons _ v t => max (need v) (needM t) + 1
+end
+
+theorem parseVal_str (f : Nat) (r r' x : Str) (h : decodeBody r = some (x, r')) :
+    parseVal (f + 1) ('"' :: r) = some (.str x, r') := by
+  rw [parseVal.eq_def]; simp [h]
+
+theorem parseVal_arr (f : Nat) (r r' : Str) (xs : JList) (h : parseElems f r = some (xs, r')) :
+    parseVal (f + 1) ('[' :: r) = some (.arr xs, r') := by
+  rw [parseVal.eq_def]; simp [h]
+
+theorem parseVal_obj (f : Nat) (r r' : Str) (ms : JMembers) (h : parseMembers f r = some (ms, r')) :
+    parseVal (f + 1) ('{' :: r) = some (.obj ms, r') := by
+  rw [parseVal.eq_def]; simp [h]
+
+theorem parseVal_atom (f : Nat) (c : Char) (t : Str) (h1 : c ≠ '"') (h2 : c ≠ '[') (h3 : c ≠ '{') :
+    parseVal (f + 1) (c :: t) = parseAtom (c :: t) := by
+  rw [parseVal.eq_def]
+  simp only
+  split
+  · rename_i heq; injection heq with h _; exact absurd h h1
+  · rename_i heq; injection heq with h _; exact absurd h h2
+  · rename_i heq; injection heq with h _; exact absurd h h3
+  · rfl
+
+theorem parseElems_nil (f : Nat) (r : Str) : parseElems (f + 1) (']' :: r) = some (.nil, r) := by
+  rw [parseElems.eq_def]; simp
+
+theorem parseElems_cons (f : Nat) (c : Char) (s r1 r2 : Str) (v : JVal) (t : JList) (hc : c ≠ ']')
+    (h1 : parseVal f (c :: s) = some (v, r1)) (h2 : parseRest f r1 = some (t, r2)) :
+    parseElems (f + 1) (c :: s) = some (.cons v t, r2) := by
+  rw [parseElems.eq_def]
+  simp only
+  split
+  · rename_i heq; injection heq with h _; exact absurd h hc
+  · simp [h1, h2]
+
+theorem parseRest_nil (f : Nat) (r : Str) : parseRest (f + 1) (']' :: r) = some (.nil, r) := by
+  rw [parseRest.eq_def]; simp
+
+theorem parseRest_cons (f : Nat) (s r1 r2 : Str) (v : JVal) (t : JList)
+    (h1 : parseVal f s = some (v, r1)) (h2 : parseRest f r1 = some (t, r2)) :
+    parseRest (f + 1) (',' :: ' ' :: s) = some (.cons v t, r2) := by
+  rw [parseRest.eq_def]; simp [dropSpace, h1, h2]
+
+theorem parseMembers_nil (f : Nat) (r : Str) : parseMembers (f + 1) ('}' :: r) = some (.nil, r) := by
+  rw [parseMembers.eq_def]; simp
+
+theorem parseMembers_cons (f : Nat) (kb k s r1 r2 : Str) (v : JVal) (t : JMembers)
+    (hk : decodeBody kb = some (k, ':' :: ' ' :: s))
+    (h1 : parseVal f s = some (v, r1)) (h2 : parseMRest f r1 = some (t, r2)) :
+    parseMembers (f + 1) ('"' :: kb) = some (.cons k v t, r2) := by
+  rw [parseMembers.eq_def]; simp [dropSpace, hk, h1, h2]
+
+theorem parseMRest_nil (f : Nat) (r : Str) : parseMRest (f + 1) ('}' :: r) = some (.nil, r) := by
+  rw [parseMRest.eq_def]; simp
+
+theorem parseMRest_cons (f : Nat) (kb k s r1 r2 : Str) (v : JVal) (t : JMembers)
+    (hk : decodeBody kb = some (k, ':' :: ' ' :: s))
+    (h1 : parseVal f s = some (v, r1)) (h2 : parseMRest f r1 = some (t, r2)) :
+    parseMRest (f + 1) (',' :: ' ' :: '"' :: kb) = some (.cons k v t, r2) := by
+  rw [parseMRest.eq_def]; simp [dropSpace, hk, h1, h2]
+
+theorem numChar_ne {c : Char} (h : isNumChar c = true) : c ≠ '"' ∧ c ≠ '[' ∧ c ≠ '{' ∧ c ≠ ']' := by
+  refine ⟨?_, ?_, ?_, ?_⟩ <;> (intro e; subst e; revert h; decide)
+
+theorem parseVal_numTok (f : Nat) (tok rest : Str) (hne : tok ≠ []) (hall : tok.all isNumChar = true) :
+    parseVal (f + 1) (tok ++ rest) = parseAtom (tok ++ rest) := by
+  cases tok with
+  | nil => exact absurd rfl hne
+  | cons c t =>
+    simp only [List.all_cons, Bool.and_eq_true] at hall
+    have := numChar_ne hall.1
+    exact parseVal_atom f c (t ++ rest) this.1 this.2.1 this.2.2.1
+
+theorem fmtD_ne_nil (i : Int) : fmtD i ≠ [] := fun h => fmtD_not_trivial i (Or.inl h)
+
+theorem float_tok_ne_nil (t : FloatTok) : t.tok ≠ [] := by
+  intro h; have := t.ok; rw [h] at this; revert this; decide
+
+theorem dumps_head (v : JVal) : ∃ c t, dumps false v = c :: t ∧ c ≠ ']' := by
+  cases v with
+  | null => exact ⟨'n', ['u', 'l', 'l'], by decide, by decide⟩
+  | bool b => cases b
+              · exact ⟨'f', ['a', 'l', 's', 'e'], by decide, by decide⟩
+              · exact ⟨'t', ['r', 'u', 'e'], by decide, by decide⟩
+  | int i =>
+    have h1 := fmtD_ne_nil i
+    have h2 := fmtD_all_num i
+    simp only [dumps]
+    cases h : fmtD i with
+    | nil => exact absurd h h1
+    | cons c t =>
+      rw [h] at h2; simp only [List.all_cons, Bool.and_eq_true] at h2
+      exact ⟨c, t, rfl, (numChar_ne h2.1).2.2.2⟩
+  | float t =>
+    simp only [dumps]
+    rcases float_cases t with h | h | h | ⟨ha, _, _⟩
+    · rw [h]; exact ⟨_, _, rfl, by decide⟩
+    · rw [h]; exact ⟨_, _, rfl, by decide⟩
+    · rw [h]; exact ⟨_, _, rfl, by decide⟩
+    · have h1 := float_tok_ne_nil t
+      cases h : t.tok with
+      | nil => exact absurd h h1
+      | cons c s =>
+        rw [h] at ha; simp only [List.all_cons, Bool.and_eq_true] at ha
+        exact ⟨c, s, rfl, (numChar_ne ha.1).2.2.2⟩
+  | str s => exact ⟨'"', encodeBody false s ++ ['"'], by simp [dumps, encodeStr], by decide⟩
+  | arr xs => exact ⟨'[', dumpsElems false xs, by simp [dumps], by decide⟩
+  | obj ms => exact ⟨'{', dumpsMembers false ms, by simp [dumps], by decide⟩
+
+theorem endsNum_dumpsRest (t : JList) (rest : Str) : endsNum (dumpsRest false t ++ rest) = true := by
+  cases t <;> (simp only [dumpsRest, List.cons_append, endsNum]; decide)
+
+theorem endsNum_dumpsMRest (t : JMembers) (rest : Str) : endsNum (dumpsMRest false t ++ rest) = true := by
+  cases t <;> (simp only [dumpsMRest, List.cons_append, endsNum]; decide)
+
+theorem need_pos (v : JVal) : 1 ≤ need v := by cases v <;> simp [need]
+
+mutual
+theorem parseVal_dumps : ∀ (v : JVal) (f : Nat) (rest : Str), need v ≤ f → endsNum rest = true →
+    parseVal f (dumps false v ++ rest) = some (v, rest)
+  | .null, f, rest, hf, _ => by
+    obtain ⟨f', rfl⟩ : ∃ f', f = f' + 1 := ⟨f - 1, by simp only [need] at hf; omega⟩
+    show parseVal (f' + 1) ('n' :: ('u' :: 'l' :: 'l' :: rest)) = _
+    rw [parseVal_atom _ _ _ (by decide) (by decide) (by decide)]
+    exact parseAtom_null rest
+  | .bool true, f, rest, hf, _ => by
+    obtain ⟨f', rfl⟩ : ∃ f', f = f' + 1 := ⟨f - 1, by simp only [need] at hf; omega⟩
+    show parseVal (f' + 1) ('t' :: ('r' :: 'u' :: 'e' :: rest)) = _
+    rw [parseVal_atom _ _ _ (by decide) (by decide) (by decide)]
+    exact parseAtom_true rest
+  | .bool false, f, rest, hf, _ => by
+    obtain ⟨f', rfl⟩ : ∃ f', f = f' + 1 := ⟨f - 1, by simp only [need] at hf; omega⟩
+    show parseVal (f' + 1) ('f' :: ('a' :: 'l' :: 's' :: 'e' :: rest)) = _
+    rw [parseVal_atom _ _ _ (by decide) (by decide) (by decide)]
+    exact parseAtom_false rest
+  | .int i, f, rest, hf, hr => by
+    obtain ⟨f', rfl⟩ : ∃ f', f = f' + 1 := ⟨f - 1, by simp only [need] at hf; omega⟩
+    simp only [dumps]
+    rw [parseVal_numTok _ _ _ (fmtD_ne_nil i) (fmtD_all_num i)]
+    exact parseAtom_int i rest hr
+  | .float t, f, rest, hf, hr => by
+    obtain ⟨f', rfl⟩ : ∃ f', f = f' + 1 := ⟨f - 1, by simp only [need] at hf; omega⟩
+    simp only [dumps]
+    rcases float_cases t with h | h | h | ⟨ha, _, _⟩
+    · rw [h, nanTok, List.cons_append, parseVal_atom _ _ _ (by decide) (by decide) (by decide)]
+      have := parseAtom_float t rest hr; rw [h, nanTok] at this; exact this
+    · rw [h, infTok, List.cons_append, parseVal_atom _ _ _ (by decide) (by decide) (by decide)]
+      have := parseAtom_float t rest hr; rw [h, infTok] at this; exact this
+    · rw [h, negInfTok, List.cons_append, parseVal_atom _ _ _ (by decide) (by decide) (by decide)]
+      have := parseAtom_float t rest hr; rw [h, negInfTok] at this; exact this
+    · rw [parseVal_numTok _ _ _ (float_tok_ne_nil t) ha]
+      exact parseAtom_float t rest hr
+  | .str s, f, rest, hf, _ => by
+    obtain ⟨f', rfl⟩ : ∃ f', f = f' + 1 := ⟨f - 1, by simp only [need] at hf; omega⟩
+    simp only [dumps, encodeStr, List.cons_append, List.append_assoc, List.nil_append]
+    exact parseVal_str _ _ _ _ (decodeBody_encodeBody s rest)
+  | .arr xs, f, rest, hf, _ => by
+    obtain ⟨f', rfl⟩ : ∃ f', f = f' + 1 := ⟨f - 1, by simp only [need] at hf; omega⟩
+    simp only [dumps, List.cons_append]
+    exact parseVal_arr _ _ _ _ (parseElems_dumps xs f' rest (by simp only [need] at hf; omega))
+  | .obj ms, f, rest, hf, _ => by
+    obtain ⟨f', rfl⟩ : ∃ f', f = f' + 1 := ⟨f - 1, by simp only [need] at hf; omega⟩
+    simp only [dumps, List.cons_append]
+    exact parseVal_obj _ _ _ _ (parseMembers_dumps ms f' rest (by simp only [need] at hf; omega))
+theorem parseElems_dumps : ∀ (xs : JList) (f : Nat) (rest : Str), needL xs ≤ f →
+    parseElems f (dumpsElems false xs ++ rest) = some (xs, rest)
+  | .nil, f, rest, hf => by
+    obtain ⟨f', rfl⟩ : ∃ f', f = f' + 1 := ⟨f - 1, by simp only [needL] at hf; omega⟩
+    simp only [dumpsElems, List.cons_append, List.nil_append]
+    exact parseElems_nil f' rest
+  | .cons v t, f, rest, hf => by
+    obtain ⟨f', rfl⟩ : ∃ f', f = f' + 1 := ⟨f - 1, by simp only [needL] at hf; omega⟩
+    simp only [needL] at hf
+    simp only [dumpsElems, List.append_assoc]
+    obtain ⟨c, s, hcs, hc⟩ := dumps_head v
+    have h1 := parseVal_dumps v f' (dumpsRest false t ++ rest) (by omega) (endsNum_dumpsRest t rest)
+    have h2 := parseRest_dumps t f' rest (by omega)
+    rw [hcs] at h1 ⊢
+    exact parseElems_cons f' c _ _ _ v t hc h1 h2
+theorem parseRest_dumps : ∀ (xs : JList) (f : Nat) (rest : Str), needL xs ≤ f →
+    parseRest f (dumpsRest false xs ++ rest) = some (xs, rest)
+  | .nil, f, rest, hf => by
+    obtain ⟨f', rfl⟩ : ∃ f', f = f' + 1 := ⟨f - 1, by simp only [needL] at hf; omega⟩
+    simp only [dumpsRest, List.cons_append, List.nil_append]
+    exact parseRest_nil f' rest
+  | .cons v t, f, rest, hf => by
+    obtain ⟨f', rfl⟩ : ∃ f', f = f' + 1 := ⟨f - 1, by simp only [needL] at hf; omega⟩
+    simp only [needL] at hf
+    simp only [dumpsRest, List.cons_append, List.append_assoc]
+    have h1 := parseVal_dumps v f' (dumpsRest false t ++ rest) (by omega) (endsNum_dumpsRest t rest)
+    have h2 := parseRest_dumps t f' rest (by omega)
+    exact parseRest_cons f' _ _ _ v t h1 h2
+theorem parseMembers_dumps : ∀ (ms : JMembers) (f : Nat) (rest : Str), needM ms ≤ f →
+    parseMembers f (dumpsMembers false ms ++ rest) = some (ms, rest)
+  | .nil, f, rest, hf => by
+    obtain ⟨f', rfl⟩ : ∃ f', f = f' + 1 := ⟨f - 1, by simp only [needM] at hf; omega⟩
+    simp only [dumpsMembers, List.cons_append, List.nil_append]
+    exact parseMembers_nil f' rest
+  | .cons k v t, f, rest, hf => by
+    obtain ⟨f', rfl⟩ : ∃ f', f = f' + 1 := ⟨f - 1, by simp only [needM] at hf; omega⟩
+    simp only [needM] at hf
+    simp only [dumpsMembers, encodeStr, List.cons_append, List.append_assoc, List.nil_append]
+    have h1 := parseVal_dumps v f' (dumpsMRest false t ++ rest) (by omega) (endsNum_dumpsMRest t rest)
+    have h2 := parseMRest_dumps t f' rest (by omega)
+    exact parseMembers_cons f' _ k _ _ _ v t (decodeBody_encodeBody k _) h1 h2
+theorem parseMRest_dumps : ∀ (ms : JMembers) (f : Nat) (rest : Str), needM ms ≤ f →
+    parseMRest f (dumpsMRest false ms ++ rest) = some (ms, rest)
+  | .nil, f, rest, hf => by
+    obtain ⟨f', rfl⟩ : ∃ f', f = f' + 1 := ⟨f - 1, by simp only [needM] at hf; omega⟩
+    simp only [dumpsMRest, List.cons_append, List.nil_append]
+    exact parseMRest_nil f' rest
+  | .cons k v t, f, rest, hf => by
+    obtain ⟨f', rfl⟩ : ∃ f', f = f' + 1 := ⟨f - 1, by simp only [needM] at hf; omega⟩
+    simp only [needM] at hf
+    simp only [dumpsMRest, encodeStr, List.cons_append, List.append_assoc, List.nil_append]
+    have h1 := parseVal_dumps v f' (dumpsMRest false t ++ rest) (by omega) (endsNum_dumpsMRest t rest)
+    have h2 := parseMRest_dumps t f' rest (by omega)
+    exact parseMRest_cons f' _ k _ _ _ v t (decodeBody_encodeBody k _) h1 h2
+end
+
+theorem length_pos_of_ne_nil' {s : Str} (h : s ≠ []) : 1 ≤ s.length := by
+  cases s with
+  | nil => exact absurd rfl h
+  | cons _ _ => simp
+
+mutual
+theorem need_le_length : ∀ v : JVal, need v ≤ (dumps false v).length
+  | .null => by decide
+  | .bool true => by decide
+  | .bool false => by decide
+  | .int i => by simp only [need, dumps]; exact length_pos_of_ne_nil' (fmtD_ne_nil i)
+  | .float t => by simp only [need, dumps]; exact length_pos_of_ne_nil' (float_tok_ne_nil t)
+  | .str s => by simp [need, dumps, encodeStr]
+  | .arr xs => by
+    have := needL_le_elems xs
+    simp only [need, dumps, List.length_cons]; omega
+  | .obj ms => by
+    have := needM_le_members ms
+    simp only [need, dumps, List.length_cons]; omega
+theorem needL_le_elems : ∀ xs : JList, needL xs ≤ (dumpsElems false xs).length
+  | .nil => by decide
+  | .cons v t => by
+    have h1 := need_le_length v
+    have h2 := needL_le_rest t
+    have h3 := need_pos v
+    have h4 : 1 ≤ needL t := by cases t <;> simp [needL]
+    simp only [needL, dumpsElems, List.length_append]; omega
+theorem needL_le_rest : ∀ xs : JList, needL xs ≤ (dumpsRest false xs).length
+  | .nil => by decide
+  | .cons v t => by
+    have h1 := need_le_length v
+    have h2 := needL_le_rest t
+    simp only [needL, dumpsRest, List.length_cons, List.length_append]; omega
+theorem needM_le_members : ∀ ms : JMembers, needM ms ≤ (dumpsMembers false ms).length
+  | .nil => by decide
+  | .cons k v t => by
+    have h1 := need_le_length v
+    have h2 := needM_le_mrest t
+    simp only [needM, dumpsMembers, List.length_cons, List.length_append]; omega
+theorem needM_le_mrest : ∀ ms : JMembers, needM ms ≤ (dumpsMRest false ms).length
+  | .nil => by decide
+  | .cons k v t => by
+    have h1 := need_le_length v
+    have h2 := needM_le_mrest t
+    simp only [needM, dumpsMRest, List.length_cons, List.length_append]; omega
+end
+
+/-- the parser inverts the printer on every JSON value tree -/
+theorem loads_dumps_false (v : JVal) : loads (dumps false v) = some v := by
+  have h := parseVal_dumps v ((dumps false v).length + 1) [] (by have := need_le_length v; omega) rfl
+  rw [List.append_nil] at h
+  simp [loads, h]
+
+end Json
+
+namespace Json
+open Py Py.JsonStr
+
+/-! ### `toJson` commutes with reading a path; failures come from `str()` only -/
+
+theorem toJsonMembers_find (d : Bool) (s : Nat → Except Err Str) (k : Str) :
+    ∀ (ms : PyMembers) (js : JMembers), toJsonMembers d s ms = .ok js →
+      (∀ w, ms.find k = some w → ∃ jw, toJson d s w = .ok jw ∧ js.find k = some jw) ∧
+      (ms.find k = none → js.find k = none) ∧ js.keys = ms.keys
+  | .nil, js, h => by
+    simp only [toJsonMembers] at h
+    cases h
+    refine ⟨?_, ?_, rfl⟩
+    · intro w hw; simp [PyMembers.find] at hw
+    · intro _; rfl
+  | .cons k' v t, js, h => by
+    simp only [toJsonMembers] at h
+    split at h
+    · cases h
+    · rename_i j hj
+      split at h
+      · cases h
+      · rename_i js' hjs
+        cases h
+        have ih := toJsonMembers_find d s k t js' hjs
+        refine ⟨?_, ?_, ?_⟩
+        · intro w hw
+          simp only [PyMembers.find] at hw
+          simp only [JMembers.find]
+          split at hw
+          · rename_i hk; cases hw; exact ⟨j, hj, by simp [hk]⟩
+          · rename_i hk
+            obtain ⟨jw, h1, h2⟩ := ih.1 w hw
+            exact ⟨jw, h1, by simp [hk, h2]⟩
+        · intro hn
+          simp only [PyMembers.find] at hn
+          simp only [JMembers.find]
+          split at hn
+          · cases hn
+          · rename_i hk; simp [hk, ih.2.1 hn]
+        · simp [JMembers.keys, PyMembers.keys, ih.2.2]
+
+theorem toJson_dict (d : Bool) (s : Nat → Except Err Str) (ms : PyMembers) (j : JVal)
+    (h : toJson d s (.dict ms) = .ok j) : ∃ js, j = .obj js ∧ toJsonMembers d s ms = .ok js := by
+  simp only [toJson] at h
+  split at h
+  · rename_i js hjs; cases h; exact ⟨js, rfl, hjs⟩
+  · cases h
+
+theorem toJson_get (d : Bool) (s : Nat → Except Err Str) :
+    ∀ (p : List Str) (v w : PyVal) (j : JVal), toJson d s v = .ok j → v.get p = some w →
+      ∃ jw, toJson d s w = .ok jw ∧ j.get p = some jw
+  | [], v, w, j, h, hg => by
+    simp only [PyVal.get] at hg; cases hg
+    exact ⟨j, h, rfl⟩
+  | k :: ks, v, w, j, h, hg => by
+    cases v with
+    | dict ms =>
+      obtain ⟨js, rfl, hjs⟩ := toJson_dict d s ms j h
+      simp only [PyVal.get] at hg
+      split at hg
+      · rename_i x hx
+        obtain ⟨jx, h1, h2⟩ := (toJsonMembers_find d s k ms js hjs).1 x hx
+        obtain ⟨jw, h3, h4⟩ := toJson_get d s ks x w jx h1 hg
+        exact ⟨jw, h3, by simp [JVal.get, h2, h4]⟩
+      · cases hg
+    | _ => simp [PyVal.get] at hg
+
+theorem toJson_keysAt (d : Bool) (s : Nat → Except Err Str) (p : List Str) (v : PyVal) (j : JVal)
+    (ms : PyMembers) (h : toJson d s v = .ok j) (hg : v.get p = some (.dict ms)) :
+    j.keysAt p = some ms.keys := by
+  obtain ⟨jw, h1, h2⟩ := toJson_get d s p v _ j h hg
+  obtain ⟨js, rfl, hjs⟩ := toJson_dict d s ms jw h1
+  simp [JVal.keysAt, h2, (toJsonMembers_find d s [] ms js hjs).2.2]
+
+mutual
+theorem toJson_error (s : Nat → Except Err Str) (e : Err) :
+    ∀ v : PyVal, toJson true s v = .error e → ∃ o ∈ opaques v, s o = .error e
+  | .none, h => by simp [toJson] at h
+  | .bool _, h => by simp [toJson] at h
+  | .int _, h => by simp [toJson] at h
+  | .float _, h => by simp [toJson] at h
+  | .str _, h => by simp [toJson] at h
+  | .list xs, h => by
+    simp only [toJson] at h
+    split at h
+    · cases h
+    · rename_i e' he; cases h
+      simpa [opaques] using toJsonList_error s e xs he
+  | .dict ms, h => by
+    simp only [toJson] at h
+    split at h
+    · cases h
+    · rename_i e' he; cases h
+      simpa [opaques] using toJsonMembers_error s e ms he
+  | .opaque o, h => by
+    simp only [toJson, if_true] at h
+    split at h
+    · cases h
+    · rename_i e' he; cases h
+      exact ⟨o, by simp [opaques], he⟩
+theorem toJsonList_error (s : Nat → Except Err Str) (e : Err) :
+    ∀ xs : PyList, toJsonList true s xs = .error e → ∃ o ∈ opaquesList xs, s o = .error e
+  | .nil, h => by simp [toJsonList] at h
+  | .cons v t, h => by
+    simp only [toJsonList] at h
+    split at h
+    · rename_i e' he; cases h
+      obtain ⟨o, ho, hs⟩ := toJson_error s e v he
+      exact ⟨o, by simp [opaquesList, ho], hs⟩
+    · split at h
+      · rename_i e' he; cases h
+        obtain ⟨o, ho, hs⟩ := toJsonList_error s e t he
+        exact ⟨o, by simp [opaquesList, ho], hs⟩
+      · cases h
+theorem toJsonMembers_error (s : Nat → Except Err Str) (e : Err) :
+    ∀ ms : PyMembers, toJsonMembers true s ms = .error e → ∃ o ∈ opaquesMembers ms, s o = .error e
+  | .nil, h => by simp [toJsonMembers] at h
+  | .cons k v t, h => by
+    simp only [toJsonMembers] at h
+    split at h
+    · rename_i e' he; cases h
+      obtain ⟨o, ho, hs⟩ := toJson_error s e v he
+      exact ⟨o, by simp [opaquesMembers, ho], hs⟩
+    · split at h
+      · rename_i e' he; cases h
+        obtain ⟨o, ho, hs⟩ := toJsonMembers_error s e t he
+        exact ⟨o, by simp [opaquesMembers, ho], hs⟩
+      · cases h
+end
+
+end Json
